@@ -12,6 +12,8 @@ package netpoll
 
 import (
 	"bufio"
+	"runtime/pprof"
+	"context"
 	"flag"
 	"fmt"
 	"math/rand"
@@ -32,6 +34,51 @@ type vocConn struct {
 	idx    int32
 	closed bool
 	sent   int
+	// connections opened with "openh" have an OnRequest handler (it consumes everything and counts it): the poller's
+	// hang-up path then tears them down by itself (close callbacks on the hang-up goroutine, closing == poller)
+	handler    bool
+	got        int64
+	peerClosed bool
+	hupped     bool // no handler: the hang-up detached the operator, the user's Close does the rest
+}
+
+// settle waits until the connection's handler task (if any) is idle and has consumed what arrived
+func (vc *vocConn) settle() {
+	if !vc.handler {
+		return
+	}
+	dl := time.Now().Add(2 * time.Second)
+	for time.Now().Before(dl) {
+		if vc.c.isUnlock(processing) && (vc.c.inputBuffer.Len() == 0 || !vc.c.IsActive()) {
+			return
+		}
+		time.Sleep(50 * time.Microsecond)
+	}
+}
+
+// freed waits until the connection's slot has been given back (teardown finished on whatever goroutine runs it)
+func (w *vocWorld) freed(vc *vocConn) bool {
+	dl := time.Now().Add(2 * time.Second)
+	for time.Now().Before(dl) {
+		c := w.p.opcache
+		lock(&c.freelocked)
+		in := false
+		for _, i := range c.freelist {
+			if i == vc.idx {
+				in = true
+			}
+		}
+		unlock(&c.freelocked)
+		if in {
+			// the finalizer goes on to close the descriptor and recycle the buffers
+			for k := 0; k < 200 && atomic.LoadUint32(&vc.c.netFD.closed) == 0 && atomic.LoadInt32(&vc.c.netFD.detaching) == 0; k++ {
+				time.Sleep(20 * time.Microsecond)
+			}
+			return true
+		}
+		time.Sleep(50 * time.Microsecond)
+	}
+	return false
 }
 
 type vocWorld struct {
@@ -80,16 +127,28 @@ func (w *vocWorld) obs() string {
 	return strings.Join(parts, " ")
 }
 
-func (w *vocWorld) open() (string, string) {
+func (w *vocWorld) open(handler bool) (string, string) {
 	fds, err := syscall.Socketpair(syscall.AF_UNIX, syscall.SOCK_STREAM, 0)
 	if err != nil {
 		return "", "setup-failed"
 	}
 	c := &connection{}
-	if err := c.init(&netFD{fd: fds[0], network: "unix"}, &options{}); err != nil {
+	vc := &vocConn{id: w.nextID, peer: fds[1], handler: handler}
+	opts := &options{}
+	if handler {
+		opts.onRequest = func(ctx context.Context, conn Connection) error {
+			r := conn.Reader()
+			n := r.Len()
+			if n > 0 && r.Skip(n) == nil {
+				atomic.AddInt64(&vc.got, int64(n))
+			}
+			return nil
+		}
+	}
+	if err := c.init(&netFD{fd: fds[0], network: "unix"}, opts); err != nil {
 		return "", "setup-failed " + err.Error()
 	}
-	vc := &vocConn{id: w.nextID, c: c, peer: fds[1], op: c.operator, idx: c.operator.index}
+	vc.c, vc.op, vc.idx = c, c.operator, c.operator.index
 	w.nextID++
 	orig := c.operator.Inputs
 	id := vc.id
@@ -104,14 +163,18 @@ func (w *vocWorld) open() (string, string) {
 	w.conns = append(w.conns, vc)
 	w.slots[vc.idx] = true
 	// C10, last sentence: the slot must not get a new owner while the poller still holds a fetched, undispatched event through it
+	name := "open"
+	if handler {
+		name = "openh"
+	}
 	if w.inBatch {
 		for _, ev := range w.batch[w.bpos:] {
 			if *(**FDOperator)(unsafe.Pointer(&ev.data)) == vc.op {
-				return fmt.Sprintf("open %d slot=%d", vc.id, vc.idx), fmt.Sprintf("BYSTANDER-FAIL slot %d handed to connection %d while the poller holds a fetched, undispatched event through it", vc.idx, vc.id)
+				return fmt.Sprintf("%s %d slot=%d", name, vc.id, vc.idx), fmt.Sprintf("BYSTANDER-FAIL slot %d handed to connection %d while the poller holds a fetched, undispatched event through it", vc.idx, vc.id)
 			}
 		}
 	}
-	return fmt.Sprintf("open %d slot=%d", vc.id, vc.idx), "ok " + w.obs()
+	return fmt.Sprintf("%s %d slot=%d", name, vc.id, vc.idx), "ok " + w.obs()
 }
 
 func (w *vocWorld) exec(toks []string) (op string, reply string) {
@@ -128,7 +191,18 @@ func (w *vocWorld) exec(toks []string) (op string, reply string) {
 	op = strings.Join(toks, " ")
 	switch toks[0] {
 	case "open":
-		return w.open()
+		return w.open(false)
+	case "openh":
+		return w.open(true)
+	case "hup":
+		// the peer closes its end: the next event fetched for the connection carries the hang-up
+		vc := w.conns[atoi(toks[1])]
+		if vc.closed || vc.peerClosed {
+			return op, "skip"
+		}
+		vc.peerClosed = true
+		syscall.Close(vc.peer)
+		return fmt.Sprintf("hup %d", vc.id), "ok " + w.obs()
 	case "drain":
 		// use up the cache's free chain, so the next alloc has to get its operator some other way
 		// (a fresh block; never a slot that still waits in the freelist for the end of the batch).
@@ -149,6 +223,9 @@ func (w *vocWorld) exec(toks []string) (op string, reply string) {
 		return "drain " + l, "ok " + w.obs()
 	case "send":
 		vc := w.conns[atoi(toks[1])]
+		if vc.peerClosed {
+			return op, "skip"
+		}
 		syscall.Write(vc.peer, []byte("abc"))
 		vc.sent += 3
 		return op, "ok " + w.obs()
@@ -180,12 +257,47 @@ func (w *vocWorld) exec(toks []string) (op string, reply string) {
 		o := *(**FDOperator)(unsafe.Pointer(&ev[0].data))
 		w.bpos++
 		w.ran = w.ran[:0]
+		var vc *vocConn
+		for _, c := range w.conns {
+			if !c.closed && !c.hupped && c.op == o {
+				vc = c
+			}
+		}
+		willRun := atomic.LoadInt32(&o.state) == 1
 		w.p.handler(ev)
 		ran := "none"
 		if len(w.ran) > 0 {
 			ran = fmt.Sprint(w.ran[0])
 		}
-		return fmt.Sprintf("dispatch %d", o.index), fmt.Sprintf("ok ran=%s %s", ran, w.obs())
+		note := ""
+		if vc != nil && willRun {
+			// (with data in the same event the handler reads first and leaves the hang-up to the next wait)
+			if atomic.LoadInt32(&o.detached) > 0 || vc.c.status(closing) != 0 {
+				// the hang-up path: appendHup detached the operator inside the dispatch, the hang-up goroutine does the rest
+				if vc.handler {
+					if !w.freed(vc) {
+						if os.Getenv("VERIF_DEBUG") != "" {
+							fmt.Fprintf(os.Stderr, "conn %d: closing=%d processing=%d len=%d got=%d state=%d\n", vc.id, vc.c.status(closing), vc.c.status(processing), vc.c.inputBuffer.Len(), vc.got, vc.op.state)
+							pprof.Lookup("goroutine").WriteTo(os.Stderr, 1)
+						}
+						return fmt.Sprintf("dispatch %d hup=full", o.index), "hang"
+					}
+					vc.closed = true
+					note = " hup=full"
+				} else {
+					dl := time.Now().Add(2 * time.Second)
+					for !vc.c.isCloseBy(poller) && time.Now().Before(dl) {
+						time.Sleep(50 * time.Microsecond)
+					}
+					time.Sleep(100 * time.Microsecond)
+					vc.hupped = true
+					note = " hup=detached"
+				}
+			} else {
+				vc.settle()
+			}
+		}
+		return fmt.Sprintf("dispatch %d%s", o.index, note), fmt.Sprintf("ok ran=%s %s", ran, w.obs())
 	case "dclose":
 		// dispatch of the next event with the owner's Close() running CONCURRENTLY, started while the poller holds the slot's
 		// token (inside Inputs, before the readv on operator.FD).  While the closer is at work a probe descriptor pair is opened
@@ -198,7 +310,7 @@ func (w *vocWorld) exec(toks []string) (op string, reply string) {
 		o := *(**FDOperator)(unsafe.Pointer(&ev[0].data))
 		var vc *vocConn
 		for _, c := range w.conns {
-			if !c.closed && c.op == o {
+			if !c.closed && !c.hupped && !c.peerClosed && !c.handler && c.op == o {
 				vc = c
 			}
 		}
@@ -268,10 +380,20 @@ func (w *vocWorld) exec(toks []string) (op string, reply string) {
 		if vc.closed {
 			return op, "skip"
 		}
+		vc.settle()
 		vc.c.Close()
+		if vc.handler && !w.freed(vc) {
+			return fmt.Sprintf("close %d slot=%d", vc.id, vc.idx), "hang"
+		}
 		vc.closed = true
-		syscall.Close(vc.peer)
-		return fmt.Sprintf("close %d slot=%d", vc.id, vc.idx), "ok " + w.obs()
+		if !vc.peerClosed {
+			syscall.Close(vc.peer)
+		}
+		pre := ""
+		if vc.hupped {
+			pre = " pre=detached"
+		}
+		return fmt.Sprintf("close %d slot=%d%s", vc.id, vc.idx, pre), "ok " + w.obs()
 	case "stale":
 		vc := w.conns[atoi(toks[1])]
 		if !vc.closed {
@@ -297,8 +419,12 @@ func (w *vocWorld) exec(toks []string) (op string, reply string) {
 		// bystanders: every live connection must have received exactly what was sent to it
 		var bad []string
 		for _, vc := range w.conns {
-			if !vc.closed && vc.c.inputBuffer.Len() != vc.sent {
-				bad = append(bad, fmt.Sprintf("conn%d got %d of %d", vc.id, vc.c.inputBuffer.Len(), vc.sent))
+			if vc.closed {
+				continue
+			}
+			vc.settle()
+			if have := vc.c.inputBuffer.Len() + int(atomic.LoadInt64(&vc.got)); have != vc.sent {
+				bad = append(bad, fmt.Sprintf("conn%d got %d of %d", vc.id, have, vc.sent))
 			}
 		}
 		if len(bad) > 0 {
@@ -327,7 +453,9 @@ func vocNewWorld() (*vocWorld, func(), error) {
 		for _, vc := range w.conns {
 			if !vc.closed {
 				vc.c.Close()
-				syscall.Close(vc.peer)
+				if !vc.peerClosed {
+					syscall.Close(vc.peer)
+				}
 			}
 		}
 		pollmanager = old
@@ -437,11 +565,11 @@ func VerifOpCacheMain(args []string) int {
 			// op lines carry annotations (slot=…, fetched indices): strip them for re-execution
 			t := strings.Fields(line)
 			switch t[0] {
-			case "open", "fetch", "endbatch", "check", "drain", "dclose":
+			case "open", "openh", "fetch", "endbatch", "check", "drain", "dclose":
 				t = t[:1]
 			case "dispatch":
 				t = t[:1]
-			case "close", "send":
+			case "close", "send", "hup":
 				t = t[:2]
 			case "stale":
 				t = t[:3]
@@ -508,6 +636,9 @@ func VerifOpCacheMain(args []string) int {
 					continue
 				}
 				line = "open"
+				if r.Intn(2) == 0 {
+					line = "openh"
+				}
 			case k < 7:
 				vc := w.conns[pick()]
 				if vc.closed {
@@ -525,6 +656,8 @@ func VerifOpCacheMain(args []string) int {
 				line = "endbatch"
 			case k < 18:
 				line = fmt.Sprintf("close %d", pick())
+			case k == 18 && r.Intn(2) == 0:
+				line = fmt.Sprintf("hup %d", pick())
 			default:
 				line = fmt.Sprintf("stale %d %s", pick(), []string{"release", "release", "close", "next", "write", "flush"}[r.Intn(6)])
 			}
